@@ -13,7 +13,7 @@ def main():
         modname, _, fn = r["module"].partition(":")
         mod = importlib.import_module(modname)
         from vf import e3
-        build = {"": "build", "kernel": "kernel_build", "sympos": "sympos_build"}.get(fn, "build")
+        build = {"": "build", "kernel": "kernel_build", "sympos": "sympos_build"}.get(fn, fn if hasattr(mod, fn) else "build")
         failed, exc = e3.replay_e3(getattr(mod, build), r["item"], r["inputs"])
         print("inputs:", r["inputs"], "-> failed obligations:", failed, "exception:", repr(exc))
         sys.exit(1 if (failed or exc is not None) else 0)
